@@ -637,6 +637,11 @@ func (p *Parser) importStatement() ast.StatementNode {
 		return ast.NewInvalidNode(errTok.Location(), errTok)
 	}
 
+	if p.lookahead.IsStatementSeparator() {
+		// the separator belongs to the statement, like in expression statements
+		p.advance()
+	}
+
 	return ast.NewImportStatementNode(
 		importTok.Location().Join(stringLiteral.Location()),
 		stringLiteral,
